@@ -1,5 +1,6 @@
 import CoapVerif.Model.Dedup
 import CoapVerif.Spec.Dedup
+import CoapVerif.Model.DedupLock
 /-!
 # Finding F9 (C05), fixed in /repo — kept as a proven counter-example of the *unfixed* key choice
 
@@ -30,6 +31,24 @@ theorem f9_own_mid_crosstalk :
     judge (f9Run (initMsgID 100 32767) [.recv .non 5 [0xa1] .pbe 0, .recv .con 32870 [0xb7] .pbe 0]) = .notFresh := by
   decide
 
+/-! ## F28 (fixed): an empty (0.00) / reset reply was not cached -/
+
+/-- The parameters of the code before the F28 fix. -/
+def f28Params : Params := { params with emptyReplyCached := false }
+
+/-- A confirmable request answered with code 0.00 and duplicated 1 µs later was handed to the handler twice
+    (first observed on the real code: `own 0 | recv con 7 a1 empty | sleep 1000 | recv con 7 a1 empty`). -/
+theorem f28_empty_reply_rehandled :
+    judge (runFrom f28Params (init 7) [.recv .con 9 [1] .empty 0, .sleep 1000, .recv .con 9 [1] .empty 0]).trace.reverse
+      = .rehandled := by decide
+
+/-! ## without the per-message-ID mutex two concurrent copies can both reach the handler -/
+
+/-- Schedule A-lock, A-check, B-lock, B-check, A-handle, B-handle on the program without lock / unlock. -/
+theorem nolock_two_handler_runs :
+    (CoapVerif.Model.DedupLock.exec false (CoapVerif.Model.DedupLock.init false) [false, false, true, true, false, true]).runs = 2 := by
+  decide
+
 /-- The same histories conform with the request-MID key. -/
 theorem fixed_conforms :
     judge (run (initMsgID 0 32767) [.recv .non 1234 [0xa1, 0xb2] .pbe 0, .recv .non 1234 [0xa1, 0xb2] .pbe 0]).trace.reverse = .ok ∧
@@ -42,5 +61,7 @@ section Audit
 open CoapVerif.Findings.C05
 #print axioms f9_duplicate_non_rehandled
 #print axioms f9_own_mid_crosstalk
+#print axioms f28_empty_reply_rehandled
+#print axioms nolock_two_handler_runs
 #print axioms fixed_conforms
 end Audit
